@@ -120,6 +120,16 @@ pub fn c16(a: &Args) {
                             if names == 1 && i % 2 == 0 { c.name = Some(if i % 6 == 0 { META_STRINGS[(fcase as usize + i) % META_STRINGS.len()].to_string() } else { format!("Colour {i}") }); }
                             p.push(c);
                         }
+                        // boundary content: black / duplicate entries at the ends (an importer may take them for padding)
+                        if n > 0 {
+                            match fcase % 6 {
+                                0 => p.set_color(n as u32 - 1, Color::new(0, 0, 0)),
+                                1 => { for k in 0..n.min(3) { p.set_color((n - 1 - k) as u32, Color::new(0, 0, 0)); } }
+                                2 => p.set_color(0, Color::new(0, 0, 0)),
+                                3 => { if n > 1 { let c = p.get_color(0); p.set_color(n as u32 - 1, c); } }
+                                _ => {}
+                            }
+                        }
                         // metadata strings (single line, no leading / trailing blanks) that look like other line types of the formats
                         if meta & 1 != 0 { p.title = META_STRINGS[fcase as usize % META_STRINGS.len()].to_string(); }
                         if meta & 2 != 0 { p.author = META_STRINGS[(fcase as usize / 3) % META_STRINGS.len()].to_string(); }
